@@ -39,6 +39,13 @@ func firstDiff(a, b []byte) int {
 	return n
 }
 
+// interleaved is an unrelated message with a list, a set and a map, decoded between two uses of a value.
+var interleaved = refcodec.Encode(wm.Struct(
+	wm.Field{ID: 1, V: wm.List(wm.KI32, wm.I32(7), wm.I32(8), wm.I32(9))},
+	wm.Field{ID: 2, V: wm.Set(wm.KBinary, wm.Binary([]byte("other")))},
+	wm.Field{ID: 3, V: wm.Map(wm.KI64, wm.KBool, wm.Pair{K: wm.I64(1), V: wm.Bool(true)})},
+))
+
 // checkCase is the oracle. It returns nil or a keyed verdict.
 func checkCase(c Case) error {
 	w := c.W
@@ -95,6 +102,29 @@ func checkCase(c Case) error {
 	got2, err := bridge.FromWire(v2)
 	if err != nil || !wm.Equal(got2, w) {
 		return ev.Errf("decode/value/"+w.K.String(), "Protocol.Decode value differs (err=%v): got %s want %s", err, wm.Render(got2), wm.Render(w))
+	}
+
+	// (3b) a decoded value is a well-typed wire value like any other: encoding it gives the spec
+	// bytes, as often as asked and whatever is decoded in between (the encoder does not own the
+	// value: the caller may go on using it), and it can still be read afterwards
+	v3, err := binary.Default.Decode(bytes.NewReader(ref), wire.Type(w.K))
+	if err != nil {
+		return ev.Errf("decode/error", "Decode failed on a valid encoding: %v", err)
+	}
+	for round := 0; round < 2; round++ {
+		var rb bytes.Buffer
+		if err := ev.Guard(func() error { return binary.Default.Encode(v3, &rb) }); err != nil {
+			return ev.Errf("reencode/error", "encoding a decoded value (time %d) failed: %v", round+1, err)
+		}
+		if !bytes.Equal(rb.Bytes(), ref) {
+			return ev.Errf("reencode/bytes/"+w.K.String(), "encoding a decoded value (time %d) differs from spec bytes at offset %d (got %d bytes, want %d)", round+1, firstDiff(rb.Bytes(), ref), rb.Len(), len(ref))
+		}
+		if ov, err := binary.Default.Decode(bytes.NewReader(interleaved), wire.TStruct); err == nil {
+			bridge.FromWire(ov)
+		}
+	}
+	if got3, err := bridge.FromWire(v3); err != nil || !wm.Equal(got3, w) {
+		return ev.Errf("reencode/value-after/"+w.K.String(), "a decoded value read after it was encoded twice differs (err=%v): got %s want %s", err, wm.Render(got3), wm.Render(w))
 	}
 
 	// (4) streaming reader under the drawn segmentation inverts, consuming everything
